@@ -271,9 +271,80 @@ def run_fixtures():
     finally:
         shutil.rmtree(d, ignore_errors=True)
 
+    MOD4 = """
+        class P:
+            @staticmethod
+            def parse(spec, cls):
+                take = P._take
+                cond = None
+                for kind, name in ((A, "key"), (B, "index")):
+                    if cls == kind:
+                        cond = take(cond, spec, name)
+                return cond
+
+            @staticmethod
+            def parse_break(spec, cls):
+                cond = None
+                for kind, name in ((A, "key"), (B, "index")):
+                    if cls == kind:
+                        cond = P._take(cond, spec, name)
+                        break
+                return cond
+
+            @staticmethod
+            def _take(cond, spec, name):
+                prefix = name + "."
+                keys = [i for i in spec if i.startswith(prefix)]
+                for k in keys:
+                    cond = (cond, spec.pop(k))
+                return cond
+
+        class A: pass
+        class B: pass
+    """
+    d = _pkg({"__init__.py": "", "m4.py": MOD4})
+    try:
+        prog = Program(d)
+        t4 = ast.unparse(flat(prog, prog.func("m4.P.parse")).node)
+        check("flatten: helper bound to a local is inlined, table loop unrolled, literal prefix propagated",
+              "take" not in t4.replace("_take", "") and "_take" not in t4 and "for kind" not in t4 and "cls == A" in t4 and "cls == B" in t4
+              and "startswith('key.')" in t4 and "startswith('index.')" in t4)
+        t5 = ast.unparse(flat(prog, prog.func("m4.P.parse_break")).node)
+        check("flatten: a table loop with a break is not unrolled", "for kind, name in" in t5)
+    finally:
+        shutil.rmtree(d, ignore_errors=True)
+
+    # guard-clause continue is read as if/else when counting appends per iteration
+    from .rules.shape import count_appends
+    body = ast.parse("for x in xs:\n    if x.ok:\n        continue\n    out.append(x)\n").body[0].body
+    check("count_appends: `if t: continue` + append is 0..1 appends, no jump", count_appends(body, "out", loop_body=True)[:2] == (0, 1) and not count_appends(body, "out", loop_body=True)[2])
+    body = ast.parse("for x in xs:\n    if x.ok:\n        if x.y:\n            continue\n    out.append(x)\n").body[0].body
+    check("count_appends: a nested continue is still a jump", bool(count_appends(body, "out", loop_body=True)[2]))
+
+    MOD5 = """
+        def emit(part, out):
+            is_plain = isinstance(part, int) and part.ok
+            is_both = is_plain and part.more
+            if not is_both:
+                raise ValueError(part)
+            out.append(part.value)
+    """
+    d = _pkg({"__init__.py": "", "m5.py": MOD5})
+    try:
+        from .rules.astutil import facts_at
+        from .program import norm
+        prog = Program(d)
+        f5 = prog.func("m5.emit")
+        app = next(n for n in ast.walk(f5.node) if isinstance(n, ast.Call) and isinstance(n.func, ast.Attribute) and n.func.attr == "append")
+        fs = facts_at(prog, f5, app, norm)
+        check("facts_at: a flag bound once to a conjunction stands for its conjuncts, through a refusal guard",
+              {"isinstance(part, int)", "part.ok", "part.more"} <= fs)
+    finally:
+        shutil.rmtree(d, ignore_errors=True)
+
     if failures:
         for f in failures:
             print("FIXTURE FAILED:", f)
         return 1
-    print("selfcheck: 29 engine fixtures ok")
+    print("selfcheck: 34 engine fixtures ok")
     return 0
